@@ -504,7 +504,7 @@ def opmask(*ops):
     return m
 
 
-def ops_action(ops, api="NR"):
+def ops_action(ops, api="NR", less3=False):
     """Action text performing the operation the explorer chooses.  Only the
     enabled operations appear textually (flex enables yymore/yyreject support
     by finding their names in the actions)."""
@@ -513,7 +513,9 @@ def ops_action(ops, api="NR"):
     inp = "yyinput(%s)" % only
     one_in = "{ int vf_c = %s; vf_did_input(vf_c, yylineno); }" % inp
     cases = {
-        OP_LESS: "{ int vf_k = vf_arg_less((long)yyleng); yyless(vf_k); vf_did_less(vf_k, yytext, (long)yyleng, yylineno); } break;",
+        # less3: yyless() called from a function of section 3 (the skeleton redefines yyless() "so it works in section 3 code")
+        OP_LESS: ("{ int vf_k = vf_arg_less((long)yyleng); vf_less3(vf_k%s); vf_did_less(vf_k, yytext, (long)yyleng, yylineno); } break;" % last if less3 else
+                  "{ int vf_k = vf_arg_less((long)yyleng); yyless(vf_k); vf_did_less(vf_k, yytext, (long)yyleng, yylineno); } break;"),
         OP_UNPUT: "{ int vf_c = vf_arg_unput(); yyunput(vf_c); vf_did_unput(vf_c, yytext, (long)yyleng, yylineno); } break;",
         OP_INPUT1: one_in + " break;",
         OP_INPUT2: one_in + " " + one_in + " break;",
